@@ -186,7 +186,7 @@ d.exsures_[:] = [("dump/pickling-errors-propagate", "BaseException", None,
 
 OWNED = "(G.fd_owned[fd] or loky_tracker()._fd == fd or unbox(mp_tracker()._fd) == fd)"
 NEW_FDS_OWNED = "forall(Int, lambda fd: implies(G.fd_open[fd] and not old(G.fd_open[fd]), " + OWNED + "))"
-c = PP.contract("Popen._launch", props=["C18", "C20", "C12"])
+c = PP.contract("Popen._launch", props=["C18", "C20", "C12", "C02"])
 c.param("self", T.Ref("Popen")).param("process_obj", T.Ref("LokyProcess"))
 c.rely("keep-list-holds-open-descriptors", "forall(Int, lambda x: implies(mem(self._fds, x), G.fd_open[x]))", "A-fds")
 c.rely("the-trackers-do-not-die-during-the-launch", "G.tracker_stable", "A-tracker-stable")
@@ -203,6 +203,11 @@ c.ensures("launch/sentinel-is-the-parent-read-end-and-pid-recorded",
 c.ensures("launch/payload-written-to-the-parent-write-end-then-closed",
           "log_count('fdopen') == 1 and log_arg('fdopen', 0, 1) == log_arg('pipe', 1, 1) and log_count('write') == 1 and "
           "log_before('write', 'close_file') and log_before('call:fork_exec', 'write')", prop="C18")
+# C02 / C18 ("at any instant of its life"; "liveness reported faithfully"): a child that dies before it has read its payload must make the write fail (EPIPE),
+# which needs every copy of the read end closed in the parent *before* the write; with a copy still open and a payload above the pipe buffer the write, and
+# submit() with the shutdown and management locks held, blocks for ever
+c.at_call("File.write", "the-parent-holds-no-copy-of-the-childs-read-end-while-it-writes-the-payload", "not G.fd_open[log_arg('pipe', 1, 0)]", prop=["C18", "C02"])
+c.replay_for("the-parent-holds-no-copy-of-the-childs-read-end-while-it-writes-the-payload", "worker_dies_before_reading_payload")
 c.ensures("launch/every-surviving-new-descriptor-has-an-owner", NEW_FDS_OWNED, prop="C20")
 c.ensures("launch/sentinel-survives", "G.fd_open[self.sentinel]", prop="C20")
 c.ensures("launch/child-ends-closed-in-the-parent", "not G.fd_open[log_arg('pipe', 0, 1)] and not G.fd_open[log_arg('pipe', 1, 0)]", prop="C20")
